@@ -149,6 +149,7 @@ Case genCase(Choices& c, int maxThreads) {
     k.spec.schedSeed = c.raw() + 1;
     k.spec.pctDepth = c.range(1, 4);
     k.spec.pctMaxSteps = c.of(std::vector<long>{200, 1000, 5000});
+    k.spec.lockYield = c.of(std::vector<int>{0, 0, 0, 1, 3, 16});
     fillScript(k);
     return k;
 }
@@ -197,6 +198,7 @@ void classify(const Case& k, const coop::RunResult& r, vh::Stats& st) {
     for (auto& e : r.in) if (e.forced) { st.count("script commands forced (condition could not become true)"); break; }
     for (auto& c : k.cmds) { if (c.kind == "ponderhit") { st.cls("has ponderhit"); break; } }
     for (auto& c : k.cmds) { if (c.kind == "eof") { st.cls("ends with EOF"); break; } }
+    if (k.spec.lockYield > 0) st.cls("mutex acquisitions are scheduling points");
     st.count(std::string("strategy ") + (k.spec.strategy == 0 ? "non-preemptive" : k.spec.strategy == 1 ? "random" : k.spec.strategy == 2 ? "PCT" : "explicit"));
 }
 
